@@ -11,7 +11,11 @@ use std::io::Write;
 use std::path::PathBuf;
 use std::time::Instant;
 
-pub const VERIF_ROOT: &str = "/verif";
+/// root of the verification tree: where KNOWN_FINDINGS.txt, regressions/, findings/ are read
+/// and replays/, evidence/, .work/ are written (the driver exports its own directory)
+pub fn verif_root() -> String {
+    std::env::var("VERIF_ROOT").ok().filter(|s| !s.is_empty()).unwrap_or_else(|| "/verif".to_string())
+}
 const SHM_SIZE: usize = 1 << 20;
 const MAX_SAMPLES_PER_SHARD: usize = 6;
 const MAX_SIGS: usize = 24;
@@ -213,7 +217,7 @@ pub struct Finding {
 
 /// open findings of a property from the committed KNOWN_FINDINGS.txt
 pub fn known_findings(prop: &str) -> Vec<Finding> {
-    let path = format!("{}/KNOWN_FINDINGS.txt", VERIF_ROOT);
+    let path = format!("{}/KNOWN_FINDINGS.txt", verif_root());
     let text = std::fs::read_to_string(path).unwrap_or_default();
     let mut out = Vec::new();
     for line in text.lines() {
@@ -281,7 +285,7 @@ fn pin_to_cpu(shard: usize) {
 }
 
 fn work_dir() -> PathBuf {
-    let p = PathBuf::from(format!("{}/.work", VERIF_ROOT));
+    let p = PathBuf::from(format!("{}/.work", verif_root()));
     let _ = std::fs::create_dir_all(&p);
     p
 }
@@ -428,7 +432,7 @@ fn wait_children(children: &[Child], deadline_s: u64) -> Vec<Result<ShardResult,
 /// (regressions/<id>/) and witnesses of open findings (findings/<id>/).
 fn replay_committed(def: &'static CheckDef, rec: &mut Rec) {
     for sub in ["regressions", "findings"] {
-        let dir = format!("{}/{}/{}", VERIF_ROOT, sub, def.id);
+        let dir = format!("{}/{}/{}", verif_root(), sub, def.id);
         let mut files: Vec<PathBuf> = match std::fs::read_dir(&dir) {
             Ok(rd) => rd.filter_map(|e| e.ok()).map(|e| e.path()).filter(|p| p.extension().map(|x| x == "json").unwrap_or(false)).collect(),
             Err(_) => continue,
@@ -460,7 +464,7 @@ fn sig_fp(sig: &str, case: &Value) -> String {
 }
 
 fn write_replay(prop: &str, v: &Violation) -> String {
-    let dir = format!("{}/replays/{}", VERIF_ROOT, prop);
+    let dir = format!("{}/replays/{}", verif_root(), prop);
     let _ = std::fs::create_dir_all(&dir);
     let clean: String = v.sig.chars().map(|c| if c.is_ascii_alphanumeric() || c == '-' || c == '_' { c } else { '_' }).take(60).collect();
     let path = format!("{}/{}-{}.json", dir, clean, &sig_fp(&v.sig, &v.case)[..8]);
@@ -628,7 +632,7 @@ fn finish(
             "wall_s": (wall * 1000.0).round() / 1000.0,
             "violations": reported,
         });
-        let dir = format!("{}/evidence", VERIF_ROOT);
+        let dir = format!("{}/evidence", verif_root());
         let _ = std::fs::create_dir_all(&dir);
         let path = format!("{}/{}.json", dir, def.id);
         let tmp = format!("{}.tmp", path);
